@@ -21,6 +21,7 @@ class Tokenizer:
         self._index = Mark(0)
         self._verbose = verbose
         self._lines: dict[int, str] = {}
+        self._comments: dict[int, tuple[int, int]] = {}  # line number -> columns of the comment on that line
         self._path = path
         self._stack: list[TokenInfo] = []  # temporarily hold tokens
         self._call_macro = False
@@ -58,6 +59,8 @@ class Tokenizer:
                 tok = next(self._tokengen)
             if not self._path:
                 self._record_lines(tok)
+            if tok.type == Token.COMMENT:
+                self._comments[tok.start[0]] = (tok.start[1], tok.end[1])
             if self.is_blank(tok):
                 continue
 
